@@ -624,6 +624,19 @@ class PkgGen:
             m, local = self.module(pk, mn, usable)
             modules.append(m)
             avail += [(n_, q_, in_excl) for (n_, q_) in local]
+        # members of another module reached through the module object (`import a.b as m; m.f`, `m.C`): expression types
+        # of every kind enter the tool's alias collection (a function reached this way aborted the run before c9b80ef).
+        # Deterministic in the names (no random draws), so the streams of the other constructs do not move.
+        EXCL = {"test", "tests", "docs"}
+        for i, m in enumerate(modules):
+            if i == 0 or (len(m["name"]) + i) % 2:
+                continue
+            m_ex = bool(set(m["pkg"] + [m["name"]]) & EXCL)
+            cands = [t for t in modules[:i] if t["qname"] != m["qname"] and (m_ex or not (set(t["pkg"] + [t["name"]]) & EXCL))]
+            if cands:
+                t = cands[(len(m["name"]) * 3 + i) % len(cands)]
+                m["member_access"] = {"module": t["qname"], "funcs": [f["name"] for f in t["functions"]][:2],
+                                      "classes": [c["name"] for c in t["classes"]][:2], "enums": [e["name"] for e in t["enums"]][:1]}
         # re-exports in __init__ files
         inits = {tuple(p): [] for p in pkgs}
         for p in pkgs:
@@ -837,6 +850,16 @@ def module_src(m, style: str) -> str:
                   "def zz_overloaded(v):", "    return v", ""]
     for f in m["functions"]:
         lines += func_src(f, "", style)
+        lines.append("")
+    ma = m.get("member_access")
+    if ma:
+        lines.append(f"import {ma['module']} as _zz_m")
+        for k, n in enumerate(ma["funcs"]):
+            lines.append(f"_ZZ_F{k} = _zz_m.{n}")
+        for k, n in enumerate(ma["classes"]):
+            lines.append(f"_zz_c{k} = [_zz_m.{n}]")
+        for k, n in enumerate(ma["enums"]):
+            lines.append(f"_zz_e{k} = (_zz_m.{n}, 1)")
         lines.append("")
     return "\n".join(lines) + "\n"
 
